@@ -1317,7 +1317,7 @@ collect:
 			break
 		}
 		if r.jumped() {
-			if r.prevPos > plainStart {
+			if r.prevPos >= plainStart {
 				parent.children = append(parent.children, &Inline{
 					kind: textKind,
 					span: Span{
